@@ -80,6 +80,8 @@ def run_C10(ctx):
         wants = [front.denote(sp) for (_, sp) in specs]
         first = {}
         tokdiffs = lex_correspondence(ctx, [c[3] for c in cases], paths)
+        import parsemodel
+        ctx.extra['parser_model'] = parsemodel.compare(ctx, [c[3] for c in cases], paths, dumps=[d for (d, _, _) in res], label='C10')
         for (si, li, st, text), p, (d, m, vd) in zip(cases, paths, res):
             name, sp = specs[si]
             ctx.evaluations += 1
